@@ -281,15 +281,22 @@ def oracle(ctx, cr):
 
 def run(ctx):
     cases = gen_cases(ctx.rng, ctx.tier)
-    res = V.run_module_cases(HARNESS, cases, "asan")
     acc = HookAcc()
     norec = 0
-    for cr in res:
-        for (site, f0, f1) in V.hook_problems(cr, acc):
-            ctx.violation("%s:%s:hook:%s" % (cr.m["op"], argclass(cr.m) if "shape" in cr.m else "-", site), "hook %s: index %d outside bound %d in %s" % (site, f0, f1, cr.line), dict(line=cr.line))
-        oracle(ctx, cr)
-        if cr.rec is None and cr.crash is None and not cr.timeout:
-            norec += 1
+    ncrash = 0
+    # bounded memory: every record carries the elements of six routes, so the cases are executed and judged chunk by chunk
+    CH = 25000
+    for k0 in range(0, len(cases), CH):
+        res = V.run_module_cases(HARNESS, cases[k0:k0 + CH], "asan")
+        for cr in res:
+            for (site, f0, f1) in V.hook_problems(cr, acc):
+                ctx.violation("%s:%s:hook:%s" % (cr.m["op"], argclass(cr.m) if "shape" in cr.m else "-", site), "hook %s: index %d outside bound %d in %s" % (site, f0, f1, cr.line), dict(line=cr.line))
+            oracle(ctx, cr)
+            if cr.rec is None and cr.crash is None and not cr.timeout:
+                norec += 1
+            if cr.crash is not None:
+                ncrash += 1
+        del res
     if norec:
         ctx.inconc("%d cases produced no record" % norec)
     ops = sorted({c["op"] for c in cases})
@@ -299,6 +306,6 @@ def run(ctx):
     ctx.set("hook_events", acc.summary())
     ctx.set("ops", ops)
     ctx.set("cases_generated", len(cases))
-    ctx.set("crashes_contained", sum(1 for cr in res if cr.crash is not None))
+    ctx.set("crashes_contained", ncrash)
     if acc.events.get(2, 0) == 0:
         ctx.inconc("view index hook never fired")
